@@ -5,6 +5,6 @@ from vlib.props import HDR
 n=int(sys.argv[1]); mode=sys.argv[2] if len(sys.argv)>2 else "c14"
 pid = "C14" if mode=="c14" else "C15"
 ctx=core.Ctx(pid,"quick",int(sys.argv[3]) if len(sys.argv)>3 else 1)
-st=ctx.stage("e2etry","lib/dispatchcloud","dispatchcloud",["C14/zz_verif_c14e2e_test.go"],"TestVerifC14E2E$",n,HDR.format(imports="model.C14_e2e_run"),shard=1,env={"VERIF_STAGE":"e2etry","VERIF_E2EMODE":mode})
+st=ctx.stage("e2etry","lib/dispatchcloud","dispatchcloud",["C14/zz_verif_c14e2e_test.go"],"TestVerifC14E2E$",n,HDR.format(imports="model.C14_e2e_run"),shard=1,env={"VERIF_STAGE":"e2etry","VERIF_E2EMODE":mode}, replace=(dict(kv.split("=",1) for kv in __import__("os").environ.get("VERIF_REPLACE","").split(",") if kv) or None))
 print(st.errors[:1] if st.errors else "no errors", st.failing[:20], st.wall, st.evaluated)
 for d in st.meta.get('descs',[]): print(json.dumps(d)[:700])
